@@ -21,7 +21,7 @@ NONTRIVIAL = ('states whose word has length >= 2 and contains both a 0 and a 1 (
               'distinguishable); comparison cases where noise or the threshold changes at least one decision')
 
 MAXLEAF = 12
-XFULL_MAXLEN = 8          # leaves up to this length are expanded with the op set 'xfull'
+XFULL_MAXLEN = 7          # leaves up to this length are expanded with the op set 'xfull'
 XOPERAND_MAXLEN = 3       # operand words in the extended forms
 AFTER_ALL_MAXLEN = 8      # states up to this length: len/ones/zeros of the operand are re-queried after EVERY op (longer: after every 7th op;
                           # 7 is coprime with the 24 (kind, form) pairs per operand word, so every pair is hit over the words)
@@ -273,7 +273,7 @@ NSPLIT, NSELFEMPTY = 5, 3
 
 def ops_for(mode):
     """deterministic list of op descriptors. 'full': w of length <= 4, 'deep': w of length <= 2, 'xfull' (leaves of
-    length <= 8): 'full' + every word of length <= 3 in every EXTENDED operand form + the extended refusal table + the
+    length <= 7): 'full' + every word of length <= 3 in every EXTENDED operand form + the extended refusal table + the
     operands the statement is silent on"""
     if mode in _OPS:
         return _OPS[mode]
@@ -501,7 +501,7 @@ def expand(case):
     nd_broken = False           # after the first `radd:ndarray-left` failure of this case the remaining ndarray-left ops
                                 # are skipped (counted): numpy's failing coercion costs ~0.3 ms per element and op
     ops = ops_for(mode)
-    after_all = n <= AFTER_ALL_MAXLEN
+    after_all = n <= AFTER_ALL_MAXLEN and mode != 'deep'
     on0, ze0 = sum(bits), n - sum(bits)
 
     def requery(op, what):
@@ -1267,7 +1267,7 @@ CMP = {
     'nonneg':     dict(S=(0.0, 0.25, 0.5, 1.0), N=(-0.25, 0.0, 0.25, 0.5), sc=TH_SCALAR, alpha=TH_ALPHA, neg=-0.25, inclass=True, dtyped=True),
     'nonneg-int': dict(S=(0, 1, 2, 3), N=(-1, 0, 1), sc=TH_SCALAR, alpha=TH_ALPHA, neg=-0.25, inclass=True, dtyped=True),
     'signed':     dict(S=(-1.0, -0.25, 0.0, 0.5), N=(-0.5, 0.0, 0.25), sc=TH_SCALAR, alpha=TH_ALPHA, neg=-0.25, inclass=False, dtyped=True),
-    'complex':    dict(S=(1j, -0.5 + 0.5j, 0j, 1 + 0j), N=(0.25j, -0.5 + 0j, 0j), sc=TH_SCALAR, alpha=TH_ALPHA, neg=-0.25, inclass=False, dtyped=True),
+    'complex':    dict(S=(1j, -0.5 + 0.5j, 0j, 1 + 0j), N=(0.25j, -0.5 + 0j, 0j), sc=TH_SCALAR, alpha=TH_ALPHA, neg=-0.25, inclass=False, dtyped=False),
     # hardening pass (scale and offset, extreme-but-legal values)
     'nonneg-tiny':   _affine(2.0 ** -40),                   # ~1e-12
     'nonneg-big':    _affine(2.0 ** 20),                    # ~1e6
@@ -1583,7 +1583,7 @@ def gv_case(case):
     hist = GV_HISTORIES[case]
 
     def observe():
-        rs = (expand(('deep', 0b110, 'list', ())), leaf_case(0b1011), cmp_case(('nonneg-int', (1, 2))), cmp_case(('nonneg', (0.25,))),
+        rs = (expand(('deep', 0b110, 'list', ())), leaf_case(0b101), cmp_case(('nonneg-int', (2,))), cmp_case(('nonneg', (0.25,))),
               index_case(0b101))
         return tuple(r['obs'] for r in rs), [v for r in rs for v in r['viol']]
     gv_reset()
@@ -1658,7 +1658,7 @@ def run(ctx):
              'spellings for length 1) + unary ops from every form, len/ones/zeros asked before and after every op, and on never-queried objects; '
              '(2) BFS over expression programs: every op (a+w, w+a for w in every accepted form [4 str, 3 list/tuple, 4 ndarray, '
              'binary_sequence] of every word of length <= 4 at the first level, <= 2 deeper; ~a; 7 slices; a+a; a[:k]+a[k:], a+a[k:k], a[k:k]+a, '
-             'a+~a, ~a+a (13 variants at the first level, 4 deeper); 18 invalid operands in both orders at the first level; from the leaves of length <= 8 additionally every word of '
+             'a+~a, ~a+a (13 variants at the first level, 4 deeper); 18 invalid operands in both orders at the first level; from the leaves of length <= ' + str(XFULL_MAXLEN) + ' additionally every word of '
              f'length <= {XOPERAND_MAXLEN} in the {len(XSTR_FORMS) + len(XSEQ_FORMS)} extended operand forms, {len(XINVALID_OPERANDS)} further operands that must be refused and '
              f'{len(FREE_OPERANDS)} operands the statement is silent on) '
              'executed on the real object rebuilt by replaying its path from the leaf, in lock-step with a '
@@ -1755,12 +1755,12 @@ def run(ctx):
             for Sw in itertools.product(CMP[cls]['S'], repeat=n):
                 cm.append((cls, Sw))
     ctx.pmap('compare', cmp_case, cm, horizon=120)
-    # signal container / dtype axis: every word of length 1; length 2: a cyclic chain of words (quick) / every word (thorough)
+    # signal container / dtype axis: every word of length 1; length 2: two words covering the alphabet (quick) / every word (thorough)
     cf = []
     for n in (1, 2):
         for cls, forms in SIG_FORMS.items():
             Sa = CMP[cls]['S']
-            ws = list(itertools.product(Sa, repeat=n)) if (n == 1 or thorough) else [(Sa[i], Sa[(i + 1) % len(Sa)]) for i in range(len(Sa))]
+            ws = list(itertools.product(Sa, repeat=n)) if (n == 1 or thorough) else [(Sa[1], Sa[2]), (Sa[3], Sa[0])]
             for Sw in ws:
                 for sf in forms:
                     if n > 1 and (sf in ('scalar', 'index') or sf.startswith('npscalar')):
